@@ -2,6 +2,7 @@ package main
 
 import (
 	"fmt"
+	"go/token"
 	"go/types"
 	"reflect"
 	"strings"
@@ -39,6 +40,10 @@ func (e *Engine) runStructTags(b *Block) *Unit {
 		return x
 	}
 	for _, cl := range b.Clauses {
+		if cl.Kind == "decodes_as" {
+			x.decodesAs(st, b, stt, cl)
+			continue
+		}
 		if cl.Kind != "tag" {
 			x.specErrors = append(x.specErrors, fmt.Sprintf("struct %s: only tag clauses are allowed", b.Key))
 			continue
@@ -54,6 +59,11 @@ func (e *Engine) runStructTags(b *Block) *Unit {
 			found = true
 			fieldVar = stt.Field(i)
 			val := reflect.StructTag(stt.Tag(i)).Get(key)
+			if key == "type" {
+				// pseudo key: the declared type of the field, as written relative to its package
+				ok = types.TypeString(stt.Field(i).Type(), types.RelativeTo(stt.Field(i).Pkg())) == item
+				break
+			}
 			if strings.HasPrefix(item, "=") {
 				ok = val == item[1:]
 				break
@@ -78,4 +88,104 @@ func (e *Engine) runStructTags(b *Block) *Unit {
 		}
 	}
 	return x
+}
+
+// decodesAs: the struct is marshalled to YAML and the YAML is decoded (mapstructure, tag "config", case-insensitive field
+// names) into Target (or, for a union, into one of Target|Target2|...). Every field must arrive: its YAML key (yaml tag
+// name, else the lower-cased field name) must be the decode key of a field of a target; every exported field of every
+// target must be reachable from a field of this struct; and an HCL attribute (not a block, not a label) must carry the
+// same name in both syntaxes.
+func (x *Unit) decodesAs(st *State, b *Block, stt *types.Struct, cl Clause) {
+	except := map[string]bool{}
+	for _, f := range strings.Split(cl.GhostName, ",") {
+		if f != "" {
+			except[f] = true
+		}
+	}
+	keys := map[string]bool{}
+	type tfield struct {
+		owner, name, key string
+		pos              token.Pos
+	}
+	var tfields []tfield
+	for _, tn := range strings.Split(cl.AtName, "|") {
+		var target *types.Struct
+		if pkg := x.eng.typesPkg(b.PkgPath); pkg != nil {
+			scope, name := pkg.Scope(), tn
+			if i := strings.LastIndex(name, "."); i >= 0 {
+				// a type of an imported package: "import/path.Type"
+				scope = nil
+				if ip := x.eng.typesPkg(name[:i]); ip != nil {
+					scope = ip.Scope()
+				}
+				name = name[i+1:]
+			}
+			if scope != nil {
+				if o := scope.Lookup(name); o != nil {
+					target, _ = o.Type().Underlying().(*types.Struct)
+				}
+			}
+		}
+		if target == nil {
+			x.specErrors = append(x.specErrors, fmt.Sprintf("struct %s: decodes_as: no struct type %s", b.Key, tn))
+			return
+		}
+		for j := 0; j < target.NumFields(); j++ {
+			g := target.Field(j)
+			if !g.Exported() {
+				continue
+			}
+			k := strings.Split(reflect.StructTag(target.Tag(j)).Get("config"), ",")[0]
+			if k == "" {
+				k = g.Name()
+			}
+			keys[strings.ToLower(k)] = true
+			tfields = append(tfields, tfield{tn[strings.LastIndex(tn, ".")+1:], g.Name(), strings.ToLower(k), g.Pos()})
+		}
+	}
+	have := map[string]bool{}
+	for i := 0; i < stt.NumFields(); i++ {
+		f := stt.Field(i)
+		tag := reflect.StructTag(stt.Tag(i))
+		yk := strings.Split(tag.Get("yaml"), ",")[0]
+		if yk == "" {
+			yk = strings.ToLower(f.Name())
+		}
+		have[strings.ToLower(yk)] = true
+		if except[f.Name()] {
+			continue
+		}
+		goal := False
+		if keys[strings.ToLower(yk)] {
+			goal = True
+		}
+		o := x.oblige(st, "tag", fmt.Sprintf("%s yaml key %s is decoded by %s", f.Name(), yk, cl.AtName), goal, nil)
+		if x.pkg != nil && f.Pos().IsValid() {
+			o.Pos = x.pkg.Fset.Position(f.Pos())
+		}
+		hp := strings.Split(tag.Get("hcl"), ",")
+		if len(hp) == 1 && hp[0] != "" {
+			goal = False
+			if hp[0] == yk {
+				goal = True
+			}
+			o := x.oblige(st, "tag", fmt.Sprintf("%s attribute has the same name in HCL and YAML", f.Name()), goal, nil)
+			if x.pkg != nil && f.Pos().IsValid() {
+				o.Pos = x.pkg.Fset.Position(f.Pos())
+			}
+		}
+	}
+	for _, tf := range tfields {
+		if except[tf.owner+"."+tf.name] {
+			continue
+		}
+		goal := False
+		if have[tf.key] {
+			goal = True
+		}
+		o := x.oblige(st, "tag", fmt.Sprintf("%s.%s can be written in HCL", tf.owner, tf.name), goal, nil)
+		if x.pkg != nil && tf.pos.IsValid() {
+			o.Pos = x.pkg.Fset.Position(tf.pos)
+		}
+	}
 }
